@@ -3,6 +3,7 @@ import SlotVerif.Model.Extract
 import SlotVerif.Model.Analysis
 import SlotVerif.Model.Match
 import SlotVerif.Model.EMatch
+import SlotVerif.Model.MultiMatch
 import SlotVerif.Driver.Codec
 /-! `snap` protocol (C08/C09/C05): `snap <sig>;<snapshot lines joined by ~>;<query>;<query>...` -/
 namespace SV.Drv
@@ -110,28 +111,35 @@ def renderArgs (pslots : List Nat) (m : SlotMap) (num : List Nat) : String × Li
 
 def strLt (a b : String) : Bool := a < b
 
-/-- one match: variables in name order; each invocation is replaced by the member of its symmetry orbit whose rendering
-is smallest (the matcher may return any of them) -/
+/-- one match: variables in name order; each invocation ranges over its symmetry orbit (the matcher may return any member).
+The rendering is the lexicographically smallest sequence of parts: per variable the smallest text over the orbit and over
+all fresh-slot numberings that produced the smallest texts so far (ties are all kept, they number the fresh slots differently) -/
 def canonMatch (s : Snap) (pslots : List Nat) (σ : List (String × AppId)) : String :=
   let sorted := σ.foldl (fun (acc : List (String × AppId)) b =>
     let rec ins : List (String × AppId) → List (String × AppId)
       | [] => [b]
       | x :: t => if strLt b.1 x.1 then b :: x :: t else x :: ins t
     ins acc) []
-  let (parts, _) := sorted.foldl (fun (acc : List String × List Nat) b =>
+  let coarse := "!" ++ "&".intercalate (sorted.map fun b => s!"{b.1}=@{b.2.id}#{b.2.m.length}")
+  let (parts, numsEnd) := sorted.foldl (fun (acc : List String × List (List Nat)) b =>
+    if acc.2.length > 48 then acc else
     let perms := match s.cls b.2.id with
       | some c => Grp.allPerms (Snap.group c)
       | none => []
-    let cands := if perms.isEmpty then [b.2.m] else perms.map fun p => SlotMap.composePartial p b.2.m
-    let rendered := cands.map fun m => renderArgs pslots m acc.2
-    let best := rendered.foldl (fun (bst : Option (String × List Nat)) r =>
+    let maps := if perms.isEmpty then [b.2.m] else perms.map fun p => SlotMap.composePartial p b.2.m
+    let rendered := acc.2.flatMap fun num => maps.map fun m => renderArgs pslots m num
+    let best := rendered.foldl (fun (bst : Option String) r =>
       match bst with
-      | none => some r
-      | some b0 => if strLt r.1 b0.1 then some r else some b0) none
+      | none => some r.1
+      | some b0 => if strLt r.1 b0 then some r.1 else some b0) none
     match best with
-    | some (txt, num') => (acc.1 ++ [s!"{b.1}=@{b.2.id}[{txt}]"], num')
-    | none => (acc.1 ++ [s!"{b.1}=@{b.2.id}[]"], acc.2)) ([], [])
-  "&".intercalate parts
+    | some txt =>
+      let nums := (rendered.filter fun r => r.1 == txt).map (·.2)
+      let nums := nums.foldl (fun (l : List (List Nat)) n => if l.contains n then l else l ++ [n]) []
+      (acc.1 ++ [s!"{b.1}=@{b.2.id}[{txt}]"], nums)
+    | none => (acc.1 ++ [s!"{b.1}=@{b.2.id}[]"], acc.2)) ([], [[]])
+  -- too many equally good numberings (large symmetry groups over interchangeable fresh slots): fall back to the coarse form
+  if numsEnd.length > 48 then coarse else "&".intercalate parts
 
 def canonMatches (s : Snap) (p : MPat) (ms : List (List (String × AppId))) : String :=
   let strs := ms.map (canonMatch s (patSlots p))
@@ -200,6 +208,21 @@ def snapQuery (sig : Sig) (s : Snap) (q : String) : String :=
     -- the set of matches of the single-pattern matcher, modulo fresh names and class symmetries
     let pat := parseMPat p
     canonMatches s pat (EMatch.ematchAll s pat 1000000).1
+  | ["mmatch", eqsS] =>
+    -- the set of substitutions of the multi-pattern matcher; equations `v~node~c1,c2` joined by `/`
+    let eqs : List (String × Node × List String) := (eqsS.splitOn "/").filterMap fun e =>
+      match e.splitOn "~" with
+      | [v, n, cs] => some (v, parseNode n, if cs = "-" then [] else cs.splitOn ",")
+      | _ => none
+    let pslots := eqs.flatMap fun e => Node.allOcc e.2.1
+    let ms := (MultiMatch.multiEmatch s eqs 1000000).1
+    let strs := ms.map (canonMatch s pslots)
+    let sorted := strs.foldl (fun (acc : List String) x =>
+      let rec ins : List String → List String
+        | [] => [x]
+        | y :: t => if x == y then y :: t else if strLt x y then x :: y :: t else y :: ins t
+      ins acc) []
+    s!"{sorted.length}:" ++ "/".intercalate sorted
   | ["count", i] => (match s.cls (nat! i) with | some c => toString (Grp.count (Snap.group c)) | none => "none")
   | _ => "bad-query"
 
